@@ -9,6 +9,8 @@ class SqlError(Exception):
 
 TOKEN = re.compile(r"""
     \s+ |
+    --[^\n]*  |                      # SQL comments are white space to SQLite: `-- ..` runs to the end of the LINE (of the
+    /\*(?:.|\n)*?(?:\*/|\Z) |       # string as the engine sees it: a Rust `\`-continued literal has no line breaks), `/* .. */`
     (?P<str>'(?:[^']|'')*') |
     (?P<qid>"(?:[^"]|"")*"|`[^`]*`|\[[^\]]*\]) |
     (?P<num>\d+(?:\.\d+)?) |
